@@ -5,6 +5,12 @@ HERE = os.path.dirname(os.path.abspath(__file__))
 
 CHECKS = {
  # id: (level, technique, text, note, design_ref)
+ "C01": ("exploration", "bounded-exhaustive enumeration of generated models (construct x context x base signal x run spec) against an independent Euler interpreter",
+         "Every DSL construct in every evaluation context (converter, flow/biflow into a stock, stock equation at t-dt, delay input at t-d, initial value, inflow with stock-dependent outflow) over a (start, dt, steps) lattice, plus pairs of constructs; every element at every grid time through __call__, plot(return_df) and run_scenarios(df) equals the reference trajectory.",
+         "Reference interpreter mc/refsd.py is trusted; values from fixed pools; step off-grid, pulse on binary grids, delay durations multiples of dt; models of <= 2 stocks and <= 2 constructs per equation.", "§4 C01"),
+ "C02": ("exploration", "bounded-exhaustive enumeration of expression trees (depth 2 quick / 3 thorough), DSL value vs float evaluation of the same tree",
+         "All expression trees to the depth bound over the operator alphabet built through Python's own operator dispatch; each compared in converter context and in stock context (t-dt) under two value bindings; a DSL exception counts as rejected.",
+         "Float evaluation of the tree is the oracle; values on discontinuities and ill-conditioned mod are skipped; depth > 3 not covered.", "§4 C02"),
  "C14": ("model_checking", "explicit-state BFS over operation histories on the real Model, dict reference compared on every transition",
          "All create/delete/configure/reset/set_state histories up to depth 5 (quick) / 7 (thorough) over two agent types; every registry query compared with a dict id->(type,state) after every transition.",
          "Agents created through factories whose name equals agent_type; ids offered to delete range over all ids ever issued (live and dead).", "§4 C14"),
